@@ -82,6 +82,7 @@ package retrypolicy
 // Jitter never accumulates: lastDelay is exactly what getFixedOrRandomDelay left (ghost g), or untouched.
 //@ func (*executor).getDelay
 //@   requires e != nil && e.retryPolicy != nil && e.config != nil && e.BaseDelayablePolicy != nil && exec != nil
+//@   requires [C14.user_callback_gets_copy] e.DelayFunc != nil ==> userCopy(exec)
 //@   requires e.Delay <= 4503599627370496
 //@   requires e.maxDuration >= 0 && e.maxDuration <= 4611686018427387904
 //@   requires e.Delay != 0 ==> 0 < e.Delay && (e.maxDelay != 0 ==> e.Delay <= e.maxDelay && e.maxDelay <= 35184372088832 && e.delayFactor >= 1 && e.delayFactor <= 65536)
@@ -222,4 +223,4 @@ package retrypolicy
 //@   ensures [C02.same_execution] forall i int :: 1 <= i && i <= n ==> arg(innerFn, i, 0) == exec
 //@   ensures [C16.retry.events] (e.onRetry != nil ==> ncalls(e.onRetry) == n - 1) && (e.onRetryScheduled != nil ==> n - 1 <= ncalls(e.onRetryScheduled) && ncalls(e.onRetryScheduled) <= n) && ncalls(e.onAbort) <= 1 && ncalls(e.onRetriesExceeded) <= 1
 //@   havoc
-//@   modifies e.failedAttempts, e.retriesExceeded, e.lastDelay, calls(innerFn), calls(e.onAbort), calls(e.onRetriesExceeded), calls(e.onFailure), calls(e.onSuccess), calls(e.onRetry), calls(e.onRetryScheduled), calls(e.DelayFunc), calls(exec.CopyWithResult), calls(exec.ElapsedTime), calls(exec.Retries), calls(exec.IsCanceledWithResult), calls(exec.RecordResult), calls(exec.InitializeRetry), calls(exec.Canceled)
+//@   modifies e.failedAttempts, e.retriesExceeded, e.lastDelay, calls(innerFn), calls(e.onAbort), calls(e.onRetriesExceeded), calls(e.onFailure), calls(e.onSuccess), calls(e.onRetry), calls(e.onRetryScheduled), calls(e.DelayFunc), calls(exec.CopyWithResult), methodcalls, calls(exec.IsCanceledWithResult), calls(exec.RecordResult), calls(exec.InitializeRetry), calls(exec.Canceled)
